@@ -125,3 +125,32 @@ package table
 //@   props C20
 //@   safety off
 //@   ensures [C20:value-is-a-private-copy] isnil(value) || freshbase(value)
+
+// ---------------------------------------------------------------------------
+// C13: the table format round-trips. Variable-length integers are the standard library's (encoding/binary, not
+// verified here): uvenc(x) is the encoding of x, uvlen(x) its length; PutUvarint writes exactly that and Uvarint
+// reads it back from any buffer that starts with it (trusted contracts: the varint code is prefix-free).
+//@ spec func uvlen(x uint64) int
+//@ spec func uvenc(x uint64) bytes
+//@ axiom uvlen.range: forall x uint64 :: 1 <= uvlen(x) && uvlen(x) <= 10
+//@ spec func uvat(b []byte, o int, x uint64) bool = 0 <= o && 1 <= uvlen(x) && uvlen(x) <= 10 && o + uvlen(x) <= len(b) && bytes(b[o : o+uvlen(x)]) == uvenc(x)
+//@ interface binary.PutUvarint
+//@   params buf []byte, x uint64
+//@   ensures result == uvlen(x) && result >= 1 && result <= 10 && bytes(buf[:uvlen(x)]) == uvenc(x)
+//@   modifies buf[:uvlen(x)]
+//@ interface binary.Uvarint
+//@   params buf []byte
+//@   pure
+//@   ensures [reads-back] forall x uint64 :: (uvlen(x) <= len(buf) && bytes(buf[:uvlen(x)]) == uvenc(x)) ==> (ret0 == x && ret1 == uvlen(x))
+//@   ensures [never-past-the-end] ret1 <= len(buf) && ret1 <= 10 && ret1 >= 0 - 10
+
+// Block handles (offset, length) as two varints.
+//@ func encodeBlockHandle
+//@   props C13
+//@   safety off
+//@   requires len(dst) >= 20
+//@   ensures [C13:handle-encoding] result == uvlen(b.offset) + uvlen(b.length) && uvat(dst, 0, b.offset) && uvat(dst, uvlen(b.offset), b.length)
+//@ func decodeBlockHandle
+//@   props C13
+//@   safety off
+//@   ensures [C13:handle-decoding] forall o, l uint64 :: (uvat(src, 0, o) && uvat(src, uvlen(o), l)) ==> (ret0.offset == o && ret0.length == l && ret1 == uvlen(o) + uvlen(l))
